@@ -622,7 +622,7 @@ static void SwitchTo_SX20(void) {
     SegLimits[SegCode] = 2047;
     Grans[SegData]     = 1;
     ListGrans[SegData] = 1;
-    SegInits[SegCode]  = 0;
+    SegInits[SegData]  = 0;
     SegLimits[SegData] = 0xff;
 
     MakeCode   = MakeCode_SX20;
